@@ -1019,7 +1019,6 @@ func mutantsC13() []Mutant {
 	}
 }
 
-
 // bucketsField: the map field of the bucket set (by name, else the only map-typed field).
 func bucketsField(set *types.Named) string {
 	return fieldByRole(set, "buckets", func(t types.Type) bool { _, ok := t.Underlying().(*types.Map); return ok }, nil)
